@@ -230,6 +230,47 @@ def check_failed_outputs(ctx):
         check_guard(ctx, "T1-failed-output-removed", "compaction:abandon-on-error", fc, ev, [[("!=", "rc", "0")]], "abandoning the builder")
 
 
+def check_read_errors(ctx):
+    """A failed table read is reported by the lookup, not turned into not-found."""
+    P = ctx.P
+    gm = ctx.fn("getstate_match", "src/version_set.c")
+    tg = one_call(ctx, gm, "ldb_tables_get")[0][2]
+    ctx.check(tg.get("use") in ("assign", "init"), "T4-read-error-surfaces", "status-kept", gm.name, site(gm, tg),
+              "the table lookup status is stored", "the table lookup status is dropped")
+    must_pass_before_success(ctx, "T1-read-error-surfaces", "error-marks-found", gm,
+                             lambda e: is_call(e, "ldb_tables_get"),
+                             lambda e: e["e"] == "asg" and key(e["lhs"]) == "state->found" and const_val(e["rhs"]) == 1,
+                             "a failed table read ends the search as found-with-error",
+                             success=lambda e, st: True,
+                             edge_pass=lambda lit: truth_of(lit[0], lit[1], "state->status") is False or
+                             _saver_is(lit, (0, 2)))
+    g = xgraph(P, gm)
+    for b, i, e in gm.events("ret"):
+        atoms = g.must_at(b, i)
+        if holds(atoms, ("!=", "state->status", "0")):
+            ctx.check(const_val(e.get("x")) == 0, "T1-read-error-surfaces", "error-stops-search", gm.name, site(gm, e),
+                      "a read error stops the search", "the search continues after a read error")
+    vg = ctx.fn("ldb_version_get", "src/version_set.c")
+    r = [key(e.get("x")) for b, i, e in vg.events("ret") if not e.get("synthetic")]
+    ctx.check(r == ["(state.found ? state.status : 30001)"], "T1-read-error-surfaces", "result", vg.name, vg.loc,
+              "the recorded status is what ldb_version_get returns", "ldb_version_get returns %s" % r)
+    # iterator status aggregation: children statuses are consulted
+    for fn_name, file, needle in (("ldb_twoiter_status", "src/table/two_level_iterator.c", ("index_iter", "data_iter", "status")),
+                                  ("ldb_mergeiter_status", "src/table/merger.c", ("children",)),
+                                  ("ldb_dbiter_status", "src/db_iter.c", ("iter->status", "iter->iter"))):
+        f = ctx.fn(fn_name, file)
+        txt = " ".join(key(e.get("x")) for b, i, e in f.events("ret") if e.get("x") is not None) + " " + \
+            " ".join(key(e.get("fp") or {}) + " " + " ".join(key(a) for a in e.get("a", [])) for b, i, e in f.events("call"))
+        ctx.check(all(n in txt for n in needle), "T4-iterator-status-aggregates", fn_name, f.name, f.loc,
+                  "%s reports its children's statuses" % fn_name, "%s no longer consults %s" % (fn_name, needle))
+
+
+def _saver_is(lit, values):
+    if lit[0] != "case":
+        return False
+    return key(lit[1]) == "state->saver.state" and const_val(lit[2]) in values
+
+
 def check_aborts(ctx):
     P = ctx.P
     S = status.status_functions(P)
@@ -272,4 +313,5 @@ def check(ctx):
     check_status_discipline(ctx)
     check_latch(ctx)
     check_failed_outputs(ctx)
+    check_read_errors(ctx)
     check_aborts(ctx)
